@@ -56,7 +56,24 @@ const c16fieldProse = `<ENZYME NAME>   Restriction enzyme name.
 
 `
 
+// supplier table variants: the same letters can name different suppliers in different listings
+func c16table(variant int) []struct{ letter, name string } {
+	switch variant {
+	case 1:
+		out := make([]struct{ letter, name string }, len(c16suppliers))
+		for i, s := range c16suppliers {
+			o := c16suppliers[len(c16suppliers)-1-i]
+			out[i] = struct{ letter, name string }{o.letter, "Renamed " + s.name}
+		}
+		return out
+	case 2:
+		return append([]struct{ letter, name string }{{"Z", "Zymo Research (1/22)"}}, c16suppliers[:6]...)
+	}
+	return c16suppliers
+}
+
 type c16layout struct {
+	table   int
 	header  int // 0 none, 1 real header, 2 real header + field prose
 	tabs    bool
 	blank   bool // blank line between records
@@ -76,7 +93,7 @@ func c16write(recs []c16rec, l c16layout) []byte {
 	if l.tabs {
 		indent = "\t\t"
 	}
-	for _, s := range c16suppliers {
+	for _, s := range c16table(l.table) {
 		b.WriteString(indent + s.letter + "        " + s.name + "\n")
 	}
 	b.WriteString("\n")
@@ -96,7 +113,7 @@ func c16write(recs []c16rec, l c16layout) []byte {
 	return []byte(out)
 }
 
-func c16check(r *mc.Recorder, cas string, tags []string, recs []c16rec, got map[string]rebase.Enzyme) {
+func c16check(r *mc.Recorder, cas string, tags []string, recs []c16rec, got map[string]rebase.Enzyme, tableVariant ...int) {
 	fail := func(clause, exp, g string) { r.Failf(clause, cas, tags, exp, g) }
 	if len(got) != len(recs) {
 		var names []string
@@ -108,7 +125,11 @@ func c16check(r *mc.Recorder, cas string, tags []string, recs []c16rec, got map[
 		return
 	}
 	table := map[string]string{}
-	for _, s := range c16suppliers {
+	tv := 0
+	if len(tableVariant) > 0 {
+		tv = tableVariant[0]
+	}
+	for _, s := range c16table(tv) {
 		table[s.letter] = s.name
 	}
 	for _, rec := range recs {
@@ -191,6 +212,7 @@ func c16units(tier string) []mc.Unit {
 				l.tabs = c.Dev("tabs", 2) == 1
 				l.blank = c.Dev("blank-between", 2) == 0
 				l.finalNL = c.Dev("final-newline", 2) == 0
+				l.table = c.Dev("supplier-table", 3)
 				recs := make([]c16rec, n)
 				var tags []string
 				if !l.tabs {
@@ -233,6 +255,10 @@ func c16units(tier string) []mc.Unit {
 					case 2:
 						rec.extraRef = 2
 					}
+					if l.table == 2 {
+						// this listing's table has only Z and the first six letters
+						rec.supp = map[string]string{"BN": "BZ", "": "", "B": "B", "YKB": "ZKB", "BCEIJKMNOQRSVXY": "ZBCEIJK"}[rec.supp]
+					}
 					if rec.supp != "" {
 						tags = append(tags, "has-suppliers")
 					}
@@ -252,7 +278,7 @@ func c16units(tier string) []mc.Unit {
 				if len(c.Describe()) > 0 {
 					nt++
 				}
-				c16check(r, cas, tags, recs, got)
+				c16check(r, cas, tags, recs, got, l.table)
 				if cnt == 20 {
 					r.Sample(cas + "\n" + string(text[len(text)-min(len(text), 500):]))
 				}
